@@ -167,6 +167,10 @@ func decodeArrayJSON(body []byte) ([]map[string]interface{}, error) {
 }
 
 func mergeMap(m1 map[string]interface{}, m2 map[string]interface{}) map[string]interface{} {
+	if m1 == nil {
+		// a JSON null (e.g. an element of the body `[null]`) decodes to a nil map
+		m1 = make(map[string]interface{}, len(m2))
+	}
 	for k, v := range m2 {
 		m1[k] = v
 	}
